@@ -197,13 +197,15 @@ Qed.
 Lemma des_FP_IP : forall x, x < 2 ^ 64 -> des_FP (des_IP x) = x.
 Proof.
   intros x Hx. unfold des_FP, des_IP.
-  apply permute_compose_id; try (vm_compute; reflexivity). exact Hx.
+  apply (permute_compose_id 8 des_IP_idx des_FP_idx x);
+    [reflexivity|vm_compute; reflexivity|vm_compute; reflexivity|vm_compute; reflexivity|exact Hx].
 Qed.
 
 Lemma des_IP_FP : forall x, x < 2 ^ 64 -> des_IP (des_FP x) = x.
 Proof.
   intros x Hx. unfold des_FP, des_IP.
-  apply permute_compose_id; try (vm_compute; reflexivity). exact Hx.
+  apply (permute_compose_id 8 des_FP_idx des_IP_idx x);
+    [reflexivity|vm_compute; reflexivity|vm_compute; reflexivity|vm_compute; reflexivity|exact Hx].
 Qed.
 
 Lemma des_IP_lt : forall x, des_IP x < 2 ^ 64.
@@ -331,10 +333,9 @@ Section Cbc64.
   Proof.
     intros cs H. induction H as [|c Hc|c cs Hc Hcs IH]; intros Ok Full iv Hiv.
     - reflexivity.
-    - inversion Ok as [|? ? Oc _]; subst. cbn [cbc64_enc concat]. rewrite app_nil_r.
+    - inversion Ok as [|? ? Oc _]; subst. cbn [cbc64_enc concat]. rewrite !app_nil_r.
       destruct (Nat.eqb_spec (length c) 8) as [L8|L8].
-      + rewrite app_nil_r.
-        rewrite chunks_short by (try apply nonnil_length; rewrite N_to_be_length; lia).
+      + rewrite chunks_short by (try apply nonnil_length; rewrite ?N_to_be_length; lia).
         cbn [cbc64_dec]. rewrite N_to_be_length. cbn [Nat.eqb]. rewrite app_nil_r.
         rewrite be_to_N_N_to_be_small by apply E_lt.
         rewrite DE by (apply lxor_lt_pow2; [now apply be_to_N_8_lt|assumption]).
@@ -375,3 +376,48 @@ Section Cbc64.
       apply (proj1 (chunks_all_full 8 k msg ltac:(lia) Hk)).
   Qed.
 End Cbc64.
+
+(* ---------------------------------------------------------------------------------------- *)
+(* the library modes; keys are arbitrary byte strings (the schedule is total) *)
+
+(* IMB_CIPHER_DES *)
+Theorem des_cbc_dec_enc : forall key iv msg, length iv = 8%nat -> bytes_ok msg = true ->
+  (length msg mod 8 = 0)%nat ->
+  des_cbc_dec key iv (des_cbc_enc key iv msg) = msg.
+Proof.
+  intros key iv msg Li Ok Hm. unfold des_cbc_dec, des_cbc_enc, des_enc_N. cbv zeta.
+  apply cbc64_dec_enc; try assumption.
+  - apply des_block_ks_lt.
+  - intros. now apply des_block_ks_inv.
+  - now apply be_to_N_8_lt.
+  - now right.
+Qed.
+
+(* IMB_CIPHER_DES3 (EDE with three independent keys) *)
+Theorem des3_cbc_dec_enc : forall k1 k2 k3 iv msg, length iv = 8%nat -> bytes_ok msg = true ->
+  (length msg mod 8 = 0)%nat ->
+  des3_cbc_dec k1 k2 k3 iv (des3_cbc_enc k1 k2 k3 iv msg) = msg.
+Proof.
+  intros k1 k2 k3 iv msg Li Ok Hm. unfold des3_cbc_dec, des3_cbc_enc. cbv zeta.
+  apply cbc64_dec_enc; try assumption.
+  - intros. apply des_block_ks_lt.
+  - intros x Hx.
+    rewrite des_block_ks_inv by apply des_block_ks_lt.
+    rewrite des_block_ks_inv' by apply des_block_ks_lt.
+    now apply des_block_ks_inv.
+  - now apply be_to_N_8_lt.
+  - now right.
+Qed.
+
+(* IMB_CIPHER_DOCSIS_DES: every length (CBC + CFB residual termination, short packets
+   use E(iv)) *)
+Theorem docsis_des_dec_enc : forall key iv msg, length iv = 8%nat -> bytes_ok msg = true ->
+  docsis_des_dec key iv (docsis_des_enc key iv msg) = msg.
+Proof.
+  intros key iv msg Li Ok. unfold docsis_des_dec, docsis_des_enc. cbv zeta.
+  apply cbc64_dec_enc; try assumption.
+  - apply des_block_ks_lt.
+  - intros. now apply des_block_ks_inv.
+  - now apply be_to_N_8_lt.
+  - now left.
+Qed.
